@@ -127,7 +127,9 @@ func (g *ExecutionGraph) IsRunning() bool {
 	g.mu.RLock()
 	defer g.mu.RUnlock()
 	for _, node := range g.Nodes() {
-		if node.State().Status == NodeStatusRunning {
+		// A node that was told to stop is marked canceled at once; it keeps
+		// counting as running until its command has really returned.
+		if node.State().Status == NodeStatusRunning || node.isExecuting() {
 			return true
 		}
 	}
